@@ -12,7 +12,10 @@ EXPLANATION = (
     "Lean model of unit_scaling_backend pass by pass (sweep with user precedence, dependency sets, add classification, "
     "plain-add replacement, residual rewrite, re-computation, un-constraining). Theorems pin each pass's decision logic "
     "(user precedence, residual iff one operand among the other's transitive inputs, other adds plain, single keyword "
-    "binding). Check: (a) the real backend on FX graphs of generated modules vs the model's output graph, exactly; "
+    "binding); allDeps = the transitive-input relation for every topologically ordered graph, the rewritten graph IS "
+    "topologically ordered for every well-formed input (node insertions of the residual rewrite included), hence "
+    "'residual iff one operand is computed from the other', 'exactly the ops with a later residual add stay constrained' "
+    "and 'the output graph is well-formed' for all graphs. Check: (a) the real backend on FX graphs of generated modules vs the model's output graph, exactly; "
     "(b) the real unit_scale() through TorchDynamo vs an independent interpreter that executes the User-Guide recipe on the "
     "program IR with the real U.* functions: outputs and all gradients; re-initialisation and user replacements."
 )
